@@ -317,8 +317,8 @@ func VerifC05_HistoryIndependent() {
 	phase, round, valueIdx, jkind := verifBaseShape()
 	d1 := sym.Choice("first-defect", dCount)
 	d2 := sym.Choice("second-defect", dCount)
-	if sym.Tier() == 0 && d1 != dNone && d2 != dNone {
-		sym.Assume(false) // quick tier: one of the two messages is the valid twin
+	if sym.Tier() == 0 && d1 != dNone && d2 != dNone && d1 != d2 {
+		sym.Assume(false) // quick tier: one of the two is the valid twin, or the same defective message comes twice
 	}
 	m1, _ := verifBuildShape(c, 7, phase, round, valueIdx, jkind, d1, 0)
 	m2, valid2 := verifBuildShape(c, 7, phase, round, valueIdx, jkind, d2, 0)
